@@ -240,6 +240,16 @@ def run_cli_case(ctx, p):
                                text=True, env=env, cwd=d, timeout=120, encoding='utf-8')
             runs.append(('subprocess', (r.returncode, r.stdout)))
             ctx.count('cli_subprocess')
+            # --quiet silences the output, never the verdict
+            rq = subprocess.run([sys.executable, '-m', 'penman', '--quiet'] + argv,
+                                input=texts[0] if use_stdin else None, capture_output=True,
+                                text=True, env=env, cwd=d, timeout=120, encoding='utf-8')
+            ctx.count('cli_quiet')
+            if (rq.returncode != 0) != expect_bad or rq.stdout != '':
+                ctx.fail('cli:exit-status(--quiet)',
+                         mech='output' if rq.stdout else 'zero-despite-error' if expect_bad else 'nonzero-without-error',
+                         detail=dict(det, how='subprocess --quiet', exit=rq.returncode, out=rq.stdout[:200],
+                                     err=rq.stderr[-300:]))
         for how, (code, out) in runs:
             ctx.count('cli_runs')
             if nfiles > 1:
